@@ -161,6 +161,16 @@ struct C05 : Scenario {
     Json generate(Rng& rng, const std::string& tier, std::uint64_t run) override {
         Json p = Json::object();
         p["scenario"] = "S-RUN";
+        if (run == 0) {
+            // deterministic probe for the recorded known finding (DESIGN 8): WELTARG on a rate target WCONPROD left defaulted, FIELD units
+            GenOpts o; o.max_steps = 4; o.max_actions = 0; o.max_udq = 0; o.step_events = false; o.allow_history = false; o.allow_msw = false; o.units = "FIELD";
+            o.weltarg_safe = false; o.stop_safe = true; o.nonmidnight = false; o.fmtout = 0; o.unifout = 1;
+            p["probe"] = "weltarg_on_defaulted_target"; p["model_seed"] = 424242; p["gen"] = o.to_json(); p["physics_seed"] = 7; p["write_double"] = false; p["ecl_compat"] = false;
+            Json ms = Json::array(); for (int s = 0; s < 4; ++s) { Json f = Json::array(); f.push(1.0); ms.push(f); } p["ministeps"] = ms;
+            p["mode"] = "restart"; Json rs = Json::array(); rs.push(0); p["restart_picks"] = rs; p["same_base"] = true;
+            Fault f; p["crash"] = f.to_json(); p["drops"] = Json::object();
+            return p;
+        }
         GenOpts o; o.max_steps = tier == "thorough" ? 9 : 6; o.max_actions = 2; o.max_udq = 2; o.restart_safe_conditions = true; o.nested_parens = false; o.stop_safe = true; o.date_conditions = (run % 3 == 0);
         p["model_seed"] = static_cast<long long>(rng.next() >> 8);
         p["gen"] = o.to_json();
@@ -205,6 +215,16 @@ struct C05 : Scenario {
         fs::begin_run(root);
         Model m = generate_model(static_cast<std::uint64_t>(plan.geti("model_seed")), GenOpts::from_json(plan.at("gen")));
         if (plan.has("drops")) apply_drops(m, plan.at("drops"));
+        const bool probe = plan.has("probe");
+        if (probe) {
+            const std::string wn = m.wells[0].name;      // the first well is always an oil producer
+            m.wells[0].history = false;
+            for (auto& k : m.block0) if ((k.name == "WCONPROD" || k.name == "WCONHIST") && !k.recs.empty() && k.recs[0][0] == "'" + wn + "'") {
+                k.name = "WCONPROD"; k.recs[0] = {"'" + wn + "'", "'OPEN'", "'BHP'", "1*", "1*", "1*", "1*", "1*", "1000"}; }
+            while (m.steps.size() < 3) m.steps.push_back(m.steps.back());
+            for (auto& st : m.steps) { st.by_date = false; st.days = 10; }
+            Kw wt; wt.name = "WELTARG"; wt.recs.push_back({"'" + wn + "'", "'ORAT'", "1426.8"}); m.steps[1].kws.push_back(wt);
+        }
         RunCfg cfg; cfg.physics_seed = static_cast<std::uint64_t>(plan.geti("physics_seed")); cfg.write_double = plan.getb("write_double"); cfg.ecl_compat = plan.getb("ecl_compat");
         for (size_t k = 0; k < plan.at("ministeps").size(); ++k) { std::vector<double> f; for (size_t q = 0; q < plan.at("ministeps")[k].size(); ++q) f.push_back(plan.at("ministeps")[k][q].as_d()); cfg.ministeps.push_back(f); }
         const std::string mode = plan.gets("mode", "restart");
@@ -355,7 +375,7 @@ struct C05 : Scenario {
                 for (const auto& wn : A->sched->wellNames(static_cast<size_t>(k - 1))) for (const char* key : {"WOPTH", "WOPRH", "WOPT", "WOPR", "WWPTH", "WWPRH"})
                     if (sa.has_well_var(wn, key)) fprintf(stderr, "DEBUG step %d %s:%s A=%.10g B=%.10g\n", k, key, wn.c_str(), sa.get_well_var(wn, key), sb.has_well_var(wn, key) ? sb.get_well_var(wn, key) : -1.0);
             }
-            if (!c.failed && !getenv("VERIF_SKIP_R4SUM")) {
+            if (!c.failed && !probe && !getenv("VERIF_SKIP_R4SUM")) {
                 // cumulative totals and UDQ values at every later report step (float tolerance: the restart stored doubles, so tight)
                 for (int k = n + 1; k <= last && !c.failed; ++k) {
                     if (!recA.st.count(k) || !recB.st.count(k)) continue;
@@ -374,7 +394,8 @@ struct C05 : Scenario {
                     std::string cls; std::string d = diff_dumps(da, db, true, cls);
                     c.n += static_cast<long>(da.size());
                     oh.u64(hash_dump(db));
-                    if (!d.empty()) c.fail("C05.R3." + cls, "schedule state " + std::to_string(k) + " (original vs restarted): " + d);
+                    if (!d.empty() && probe && cls.rfind("well.prod.", 0) == 0) c.fail("C05.probe.weltarg_on_defaulted_target", "schedule state " + std::to_string(k) + " (original vs restarted): " + d);
+                    else if (!d.empty()) c.fail("C05.R3." + cls, "schedule state " + std::to_string(k) + " (original vs restarted): " + d);
                 }
             }
             cmp_total += c.n;
